@@ -289,6 +289,355 @@ def _match_d7(stream, line, impl, model):
     return "@bigint" in line or "@bigdec" in line or "@bigfloat" in line
 
 
+# ---- the whole of compare() against JV.Model.Compare.compare ("dom mcmp") ----------------------------------------------------
+# values with explicit storage kinds: ("n",) ("t",) ("f",) ("E",)=json() ("I",v) ("U",v) ("d",bits) ("e",bits) ("s",bytes) ("b",bytes)
+# ("[",[...]) ("{",[(key,value)...]) with keys in order
+
+def mrender(v):
+    k = v[0]
+    if k in "ntfE":
+        return k
+    if k in "IU":
+        return "%s%d" % (k, v[1])
+    if k == "d":
+        return "d%016x" % v[1]
+    if k == "e":
+        return "e%04x" % v[1]
+    if k in "sb":
+        return k + v[1].hex()
+    if k == "[":
+        return " ".join(["["] + [mrender(x) for x in v[1]] + ["]"])
+    return " ".join(["{"] + ["k%s %s" % (key.hex(), mrender(x)) for key, x in v[1]] + ["}"])
+
+
+def dbits(f):
+    return ("d", bits(f))
+
+
+def half_value(h):
+    from fractions import Fraction
+    s, e, m = h >> 15, (h >> 10) & 31, h & 1023
+    if e == 31:
+        return None
+    val = Fraction(m, 2 ** 24) if e == 0 else Fraction(m + 1024) * Fraction(2) ** (e - 25)
+    return -val if s else val
+
+
+def m_alphabet():
+    P53, P63, P64 = 2 ** 53, 2 ** 63, 2 ** 64
+    A = [("n",), ("t",), ("f",), ("E",)]
+    A += [("I", x) for x in (0, 1, -1, 5, P53 - 1, P53, P53 + 1, P53 + 2, P53 + 3, -P53, -P53 - 1, -P53 - 2, 2 ** 62, P63 - 1, P63 - 2, P63 - 512,
+                             P63 - 513, -P63, -P63 + 1, -P63 + 512, -P63 + 513)]
+    A += [("U", x) for x in (0, 1, 5, P53, P53 + 1, P63 - 1, P63, P63 + 1, P63 + 1024, P63 + 1025, P63 + 3072, P64 - 1, P64 - 1024, P64 - 1025, P64 - 2048)]
+    fl = [0.0, -0.0, 1.0, -1.0, 5.0, 1.5, float(P53 - 1), float(P53), float(P53 + 2), float(P53 + 4), -float(P53), -float(P53 + 2), float(2 ** 62),
+          float(P63), -float(P63), float(P64), 1e300, -1e300]
+    A += [dbits(x) for x in fl]
+    for x in (float(P63), -float(P63), float(P64), float(P53)):
+        b = bits(x)
+        A += [("d", b - 1), ("d", b + 1)]
+    A += [("d", b) for b in (1, 0x8000000000000001, 0x000fffffffffffff, 0x0010000000000000, 0x7fefffffffffffff, 0xffefffffffffffff, 0x7ff0000000000000,
+                             0xfff0000000000000, 0x7ff8000000000000, 0x7ff0000000000001, 0xfff8000000000000)]
+    A += [("e", h) for h in (0x0000, 0x8000, 0x3c00, 0x3c01, 0xbc00, 0x0001, 0x8001, 0x03ff, 0x0400, 0x7bff, 0xfbff, 0x7c00, 0xfc00, 0x7e00, 0x4500)]
+    A += [("s", x) for x in (b"", b"a", b"b", b"ab", b"a\x00", b"\x7f", b"\x80", b"a" * 13, b"a" * 12 + b"b", b"a" * 14, b"b" + b"a" * 13, b"a" * 13 + b"b",
+                             b"a" * 40, b"a" * 39 + b"b", b"1", b"5")]
+    A += [("b", x) for x in (b"", b"\x00", b"\x01", b"\x80", b"\x01\x00", b"a", b"a" * 14)]
+    I = lambda x: ("I", x)
+    nan = ("d", 0x7ff8000000000000)
+    arrs = [[], [I(1)], [I(2)], [I(1), I(2)], [I(1), I(3)], [I(2), I(1)], [("[", [])], [("[", [I(1)])], [nan], [nan, I(1)], [nan, I(2)], [dbits(float(P53)), I(1)],
+            [I(P53 + 1), I(0)], [I(P53), I(5)], [("s", b"a")], [("n",)], [("E",)], [("{", [])], [("U", 1)], [dbits(1.0)], [dbits(1.0), I(0)], [("e", 0x3c00)],
+            [("s", b"a" * 14)], [("b", b"a")], [I(1), I(2), I(3)], [("{", [(b"a", I(1))])]]
+    A += [("[", x) for x in arrs]
+    objs = [[], [(b"a", I(1))], [(b"a", I(2))], [(b"b", I(1))], [(b"a", I(1)), (b"b", I(2))], [(b"a", I(1)), (b"b", I(3))], [(b"a", I(1)), (b"c", I(0))],
+            [(b"a", I(2)), (b"b", I(0))], [(b"", ("n",))], [(b"a", ("[", [I(1)]))], [(b"a", ("{", []))], [(b"a", ("E",))], [(b"a", nan)], [(b"a", nan), (b"b", I(1))],
+            [(b"a", nan), (b"b", I(2))], [(b"\x80", I(1))], [(b"ab", I(1))], [(b"a", dbits(1.0))], [(b"a", ("U", 1))], [(b"a", I(P53 + 1))], [(b"a", dbits(float(P53)))],
+            [(b"a", I(P53))], [(b"a", I(1)), (b"b", I(2)), (b"c", I(3))], [(b"a" * 14, I(1))]]
+    A += [("{", x) for x in objs]
+    return A
+
+
+def m_random_value(rng, scalars, depth):
+    r = rng.random()
+    if depth <= 0 or r < 0.55:
+        return rng.choice(scalars)
+    if r < 0.8:
+        return ("[", [m_random_value(rng, scalars, depth - 1) for _ in range(rng.randint(0, 3))])
+    ks = sorted(rng.sample([b"", b"a", b"b", b"ab", b"\x80", b"c"], rng.randint(0, 3)))
+    return ("{", [(k, m_random_value(rng, scalars, depth - 1)) for k in ks])
+
+
+def m_mutate(rng, v, scalars):
+    """a value equal to v except (perhaps) at one position, or shorter/longer by one element"""
+    if v[0] == "[":
+        xs = list(v[1])
+        q = rng.random()
+        if xs and q < 0.5:
+            i = rng.choice([0, len(xs) - 1, rng.randrange(len(xs))])
+            xs[i] = m_mutate(rng, xs[i], scalars)
+        elif xs and q < 0.7:
+            xs.pop()
+        else:
+            xs.append(rng.choice(scalars))
+        return ("[", xs)
+    if v[0] == "{":
+        ms = list(v[1])
+        q = rng.random()
+        if ms and q < 0.6:
+            i = rng.choice([0, len(ms) - 1])
+            ms[i] = (ms[i][0], m_mutate(rng, ms[i][1], scalars))
+        elif ms and q < 0.8:
+            ms.pop(rng.choice([0, len(ms) - 1]))
+        else:
+            k = rng.choice([b"", b"a", b"b", b"ab", b"\x80", b"c", b"zz"])
+            if k not in [x for x, _ in ms]:
+                ms = sorted(ms + [(k, rng.choice(scalars))])
+        return ("{", ms)
+    return rng.choice(scalars) if rng.random() < 0.5 else v
+
+
+def m_number_pairs(rng, n):
+    """stored integers next to the doubles they convert to: n, float(n) and the doubles one step either side"""
+    out = []
+    for _ in range(n):
+        w = rng.choice([53, 54, 55, 60, 62, 63, 64])
+        x = rng.getrandbits(w) | (1 << (w - 1))
+        if rng.random() < 0.4:                      # half-way cases and their neighbours
+            sh = w - 53
+            if sh > 0:
+                x = ((x >> sh) << sh) + (1 << (sh - 1)) + rng.choice([-1, 0, 0, 1])
+        x = min(x, 2 ** 64 - 1)
+        neg = rng.random() < 0.3 and x <= 2 ** 63
+        iv = ("I", -x) if neg else (("I", x) if x < 2 ** 63 and rng.random() < 0.7 else ("U", x))
+        f = float(-x if neg else x)
+        b = bits(f)
+        for db in (b, b - 1, b + 1):
+            out.append((iv, ("d", db)))
+            out.append((("d", db), iv))
+    return out
+
+
+def m_spec(a, b):
+    """the JSON data model's verdict (-1, 0, 1) where it has one for this pair and compare() is supposed to follow it; None otherwise"""
+    from fractions import Fraction
+
+    def num(v):
+        if v[0] in "IU":
+            return Fraction(v[1])
+        if v[0] == "d":
+            e = (v[1] >> 52) & 0x7FF
+            if e == 0x7FF:
+                return None
+            return Fraction(struct.unpack("<d", struct.pack("<Q", v[1]))[0])
+        return None
+    if a[0] in "IUd" and b[0] in "IUd":
+        x, y = num(a), num(b)
+        if x is None or y is None:
+            return None
+        return (x > y) - (x < y)
+    if a[0] == b[0] and a[0] in "sb":
+        return (a[1] > b[1]) - (a[1] < b[1])
+    if a[0] == "e" and b[0] == "e":
+        x, y = half_value(a[1]), half_value(b[1])
+        if x is None or y is None:
+            return None
+        return (x > y) - (x < y)
+    if a[0] == "t" or a[0] == "f":
+        if b[0] in "tf":
+            return (a[0] == "t") - (b[0] == "t")
+    if a[0] == "n" and b[0] == "n":
+        return 0
+    return None
+
+
+def m_through_double(a, b):
+    """documented exclusion X1: a stored integer beyond ±2^53 meets a double — compare() converts the integer to double first"""
+    for x, y in ((a, b), (b, a)):
+        if x[0] in "IU" and y[0] == "d" and abs(x[1]) > 2 ** 53:
+            return True
+    return False
+
+
+def m_parse(t, pos):
+    tok = t[pos]
+    pos += 1
+    if tok in ("n", "t", "f", "E"):
+        return (tok,), pos
+    if tok == "[":
+        xs = []
+        while t[pos] != "]":
+            x, pos = m_parse(t, pos)
+            xs.append(x)
+        return ("[", xs), pos + 1
+    if tok == "{":
+        ms = []
+        while t[pos] != "}":
+            k = bytes.fromhex(t[pos][1:])
+            x, pos = m_parse(t, pos + 1)
+            ms.append((k, x))
+        return ("{", ms), pos + 1
+    if tok[0] in "IU":
+        return (tok[0], int(tok[1:])), pos
+    if tok[0] in "de":
+        return (tok[0], int(tok[1:], 16)), pos
+    return (tok[0], bytes.fromhex(tok[1:])), pos
+
+
+MCMP_EXCLUDED = {"X1": 0}
+
+
+def mcmp_oracle(line, impl, model, ref=None):
+    t = line.split()
+    a, pos = m_parse(t, 2)
+    b, pos = m_parse(t, pos)
+    f = impl.split()
+    if f[0] != "ok" or len(f) != 9:
+        return "comparison failed: " + impl
+    c, rc = int(f[1][1:]), int(f[8][1:])
+    want = ["eq" if c == 0 else "ne", "NE" if c != 0 else "EQ", "lt" if c < 0 else "nl", "gt" if c > 0 else "ng", "le" if c <= 0 else "nle", "ge" if c >= 0 else "nge"]
+    if f[2:8] != want:
+        return "the six operators are not the sign tests of compare()"
+    w = m_spec(a, b)
+    if w is not None and (c != w or rc != -w):
+        if m_through_double(a, b):
+            MCMP_EXCLUDED["X1"] += 1
+        else:
+            return "compare() says %d / %d the other way round; by value the pair orders as %d" % (c, rc, w)
+    return None
+
+
+# the domain of the Lean theorems `eq_is_equivalence_partial` / `lt_is_strict_weak_order_partial` (JV.Props.C09.Dom), on the wire values
+def m_in_dom(v, long_strings):
+    k = v[0]
+    if k == "E":
+        return False
+    if k == "d":
+        return (v[1] >> 52) & 0x7FF != 0x7FF
+    if k == "e":
+        return (v[1] >> 10) & 31 != 31
+    if k in "IU":
+        return abs(v[1]) <= 2 ** 53
+    if k == "s":
+        return (len(v[1]) > 13) == long_strings
+    if k == "[":
+        return all(m_in_dom(x, long_strings) for x in v[1])
+    if k == "{":
+        return all(m_in_dom(x, long_strings) for _, x in v[1])
+    return True
+
+
+def m_class(v):
+    """the documented classes outside the theorems' domain that a value belongs to"""
+    out = set()
+    k = v[0]
+    if k == "E":
+        out.add("empty_object")
+    elif k == "d" and (v[1] >> 52) & 0x7FF == 0x7FF:
+        out.add("nan" if v[1] & ((1 << 52) - 1) else "inf")
+    elif k == "e" and (v[1] >> 10) & 31 == 31:
+        out.add("nan" if v[1] & 1023 else "inf")
+    elif k in "IU" and abs(v[1]) > 2 ** 53:
+        out.add("bigint")
+    elif k == "s":
+        out.add("long" if len(v[1]) > 13 else "short")
+    elif k == "[":
+        for x in v[1]:
+            out |= m_class(x)
+    elif k == "{":
+        for _, x in v[1]:
+            out |= m_class(x)
+    return out
+
+
+def m_triple_excluded(vals):
+    """a triple of values on which a relational law may fail for a documented reason (reported to the maintainers of this suite,
+    see Props/C09.lean): X1 integers beyond ±2^53 next to doubles, X2 json() (empty_object: kind index 4 sits between uint64 and
+    float64, and json() == {} whose kind index is 13), X3 short (kind 7) and long (kind 15) strings next to kinds 12..14,
+    X4 NaN, X5 infinities (inf - inf is NaN)"""
+    cl = set()
+    for v in vals:
+        cl |= m_class(v)
+    if "nan" in cl:
+        return "X4"
+    if "inf" in cl:
+        return "X5"
+    if "empty_object" in cl:
+        return "X2"
+    if "bigint" in cl:
+        return "X1"
+    if "long" in cl and "short" in cl:
+        return "X3"
+    return None
+
+
+def m_laws(ctx, stream, vals, cmpmat):
+    """the relational laws on the REAL results, over all triples of `vals`; cmpmat[i][j] = sign of vals[i].compare(vals[j])"""
+    n = len(vals)
+    excl = {}
+    bad = []
+    checked = 0
+    dom = [m_in_dom(v, False) for v in vals]
+    for i in range(n):
+        ci = cmpmat[i]
+        if ci[i] != 0:
+            x = m_triple_excluded([vals[i]])
+            if x is None:
+                bad.append(("a value is not equal to itself", (i, i, i)))
+            else:
+                excl[x] = excl.get(x, 0) + 1
+        for j in range(n):
+            if ci[j] != -cmpmat[j][i]:
+                x = m_triple_excluded([vals[i], vals[j]])
+                if x is None:
+                    bad.append(("compare(a, b) is not -compare(b, a)", (i, j, j)))
+                else:
+                    excl[x] = excl.get(x, 0) + 1
+            cj = cmpmat[j]
+            for k in range(n):
+                checked += 1
+                why = None
+                if ci[j] == 0 and cj[k] == 0 and ci[k] != 0:
+                    why = "== is not transitive"
+                elif ci[j] < 0 and cj[k] < 0 and not ci[k] < 0:
+                    why = "< is not transitive"
+                elif ci[j] == 0 and (cj[k] < 0) != (ci[k] < 0):
+                    why = "a == b but a < c and b < c differ"
+                elif not ci[j] < 0 and not cj[i] < 0 and not cj[k] < 0 and not cmpmat[k][j] < 0 and (ci[k] < 0 or cmpmat[k][i] < 0):
+                    why = "incomparability under < is not transitive"
+                if why:
+                    x = m_triple_excluded([vals[i], vals[j], vals[k]])
+                    if x is None or (dom[i] and dom[j] and dom[k]):
+                        bad.append((why, (i, j, k)))
+                    else:
+                        excl[x] = excl.get(x, 0) + 1
+    for why, (i, j, k) in bad[:5]:
+        line = "dom mcmp %s %s" % (mrender(vals[i]), mrender(vals[j]))
+        ctx.fail_inputs.append((stream, line, "a=%s b=%s c=%s: a?b=%d b?c=%d a?c=%d" % (mrender(vals[i]), mrender(vals[j]), mrender(vals[k]),
+                                                                                     cmpmat[i][j], cmpmat[j][k], cmpmat[i][k]), None, why))
+    return checked, excl
+
+
+def mcmp_stream(ctx, rng, scale):
+    A = m_alphabet()
+    lines = ["dom mcmp %s %s" % (mrender(a), mrender(b)) for a in A for b in A]
+    st = ctx.correspond("compare-model", HARNESS, lines, mcmp_oracle, lambda line, impl: line)
+    impl = st.get("_impl") or []
+    if len(impl) == len(lines) and all(x.startswith("ok c") for x in impl):
+        n = len(A)
+        mat = [[int(impl[i * n + j].split()[1][1:]) for j in range(n)] for i in range(n)]
+        checked, excl = m_laws(ctx, "compare-model", A, mat)
+        st["law_triples"] = checked
+        st["law_failures_in_documented_classes"] = excl
+    # generated: nested values and one-position mutations of them; integers next to the doubles they convert to
+    scalars = [v for v in A if v[0] not in "[{"]
+    pairs = m_number_pairs(rng, 150 * scale)
+    for _ in range(1500 * scale):
+        a = m_random_value(rng, scalars, 3)
+        b = m_mutate(rng, a, scalars) if rng.random() < 0.7 else m_random_value(rng, scalars, 3)
+        pairs.append((a, b))
+    lines2 = ["dom mcmp %s %s" % (mrender(a), mrender(b)) for a, b in pairs]
+    st2 = ctx.correspond("compare-model-generated", HARNESS, lines2, mcmp_oracle, lambda line, impl: line)
+    st2["int_double_pairs_decided_through_double(X1)"] = MCMP_EXCLUDED["X1"]
+
+
 # ---- is<T> / as<T> ---------------------------------------------------------------------------------------------------------------
 
 RANGES = {"i8": (-2 ** 7, 2 ** 7 - 1), "u8": (0, 2 ** 8 - 1), "i16": (-2 ** 15, 2 ** 15 - 1), "u16": (0, 2 ** 16 - 1), "i32": (-2 ** 31, 2 ** 31 - 1),
@@ -356,6 +705,7 @@ def streams(ctx, rng, scale):
     toks = ["I%d" % v for v in iv] + ["U%d" % v for v in uv]
     li2 = ["dom icmp %s %s" % (a, b) for a in toks for b in toks]
     ctx.correspond("integer-compare", HARNESS, li2, icmp_oracle, lambda line, impl: line)
+    mcmp_stream(ctx, rng, scale)
     li = isas_lines()
     ctx.correspond("is-as", HARNESS, li, isas_oracle, nontrivial, want_model=False)
 
@@ -383,7 +733,15 @@ def run(ctx):
                        "insert_or_assign, try_emplace, operator[], erase, find/contains/count/at, merge, merge_or_update, range insert with duplicate "
                        "keys, push_back, insert, erase, resize, clear, iteration) compared step by step, and slot by slot at the end, with the Lean "
                        "map/sequence model (so aliasing between copies shows); all ordered pairs from a catalogue of every storage kind and tag plus "
-                       "int64/uint64 boundary pairs for the relational laws; is<T>/as<T> on every integer width boundary. "
+                       "int64/uint64 boundary pairs for the relational laws; is<T>/as<T> on every integer width boundary; "
+                       "the whole of compare() and the six operators against JV.Model.Compare.compare (dom mcmp: explicit storage kinds) on all ordered "
+                       "pairs of a 165-value boundary alphabet (every kind, integers at +-2^53, +-2^63, 2^64-1 and their neighbours, the doubles equal / "
+                       "adjacent to them, +-0, subnormals, +-inf, NaNs, halves, strings at the 13/14-byte short/long boundary differing at the first / last "
+                       "byte and in length, byte strings, arrays and objects differing at the first / last position and in length), on generated nestings "
+                       "with one-position mutations and on random integers beside the doubles they round to; the relational laws (reflexive, antisymmetric, "
+                       "== transitive, < transitive, == congruent for <, incomparability transitive) on ALL triples of the alphabet's real results: "
+                       "a failing triple inside the Lean theorems' domain (JV.Props.C09 dom) is a violation, outside it is counted under its documented "
+                       "class X1..X5. "
                        "non-trivial = sequences / pairs longer than 30 characters; distinct by line")
     rng = vlib.rng_for(ctx.seed, "c09")
     streams(ctx, rng, 1 if ctx.tier == "quick" else 10)
